@@ -1,6 +1,6 @@
 """C04 — concurrent transactions with disjoint changes to one store both commit.
 2-3 writers add different new keys (interleaved so that they hit, split and merge the same leaves; also into an
-empty store: competing first root) and update disjoint existing keys, under seeded gate schedules and as free
+empty store: competing first root) and update and remove disjoint existing keys, under seeded gate schedules and as free
 goroutines, with a large commit time.  TLC (TxnSerial with required = all) accepts a history iff every writer
 committed and the final contents are the serial union."""
 import collections, json, os, sys
